@@ -607,6 +607,13 @@ func (h *handler1) handleSubscribe(ctx context.Context, snSubscribe *snPkts1.Sub
 	// 	contains wildcard characters
 	// We will use topicID=0 in such cases. SubackMessage
 	var topicID uint16
+	// QoS -1 (coded 3) exists for PUBLISH only; a MQTT SUBSCRIBE requesting
+	// QoS 3 is malformed [MQTT-3-8.3-4] and must not reach the broker.
+	if snSubscribe.QOS > 2 {
+		snSuback := snPkts1.NewSuback(0, snPkts1.RC_NOT_SUPPORTED, 0)
+		snSuback.CopyMessageID(snSubscribe)
+		return h.snSend(snSuback)
+	}
 	switch snSubscribe.TopicIDType {
 	case snPkts1.TIT_STRING:
 		topic = string(snSubscribe.TopicName)
